@@ -21,18 +21,19 @@ def configs(tier):
             for h in (1, 3, (2, 6, 0, 5, 2)[i]): add(sp, h)
         add(spec('localp', 'localp', 2, 1, 1, order=1), 4); add(spec('global', 'gauss-legendre', 2, 1, 2), 1); add(spec('localp', 'localp', 2, 0, 2, order=1), 0); add(spec('global', 'leja', 2, 1, 2), 5); add(spec('global', 'gauss-jacobi', 2, 1, 2, alpha=0.5, beta=1.5), 1); add(spec('global', 'gauss-hermite', 1, 1, 3, alpha=2.0), 1); add(spec('global', 'gauss-gegenbauer', 2, 2, 1, alpha=1.5), 2)
         add(spec('localp', 'semi-localp', 2, 1, 2, order=2), 1, 0); add(spec('sequence', 'leja', 2, 1, 2), 3, 0)
+        add(spec('global', 'clenshaw-curtis', 2, 1, 2), 7); add(spec('sequence', 'rleja', 2, 1, 2), 7); add(spec('fourier', 'fourier', 2, 1, 1), 7); add(spec('localp', 'localp', 2, 1, 2, order=1), 7)
     else:
         fams += [spec('localp', r, 2, 2, 2, order=o, transform=(o % 2)) for r in LOCAL_RULES for o in (-1, 0, 1, 2, 3) if not (o == 0 and r != 'localp')]
         fams += [spec('global', r, 2, 2, 2, limits=(2 if r == 'leja' else 0)) for r in ('leja', 'fejer2', 'rleja-odd', 'gauss-patterson', 'min-delta', 'gauss-legendre', 'chebyshev-odd')] + [spec('global', 'gauss-hermite', 2, 1, 2, alpha=1.0), spec('global', 'gauss-jacobi', 2, 1, 2, alpha=0.5, beta=1.5),
                  spec('global', 'clenshaw-curtis', 3, 1, 1, 'iptotal', aniso=1), spec('global', 'clenshaw-curtis', 2, 0, 2)]
         fams += [spec('sequence', r, 2, 2, 2, transform=1) for r in SEQUENCE_RULES] + [spec('fourier', 'fourier', 1, 2, 2, transform=1), spec('wavelet', 'wavelet', 1, 2, 2, order=3), spec('fourier', 'fourier', 2, 0, 1)]
         for sp in fams:
-            for h in range(7): add(sp, h)
+            for h in range(8): add(sp, h)
             add(sp, 1, 0); add(sp, 3, 0)
     return cs
 
 
 def run(tier, seed, only=None):
     cs = filt(configs(tier), only)
-    META['bounds'] = {'dims': '1..3', 'outputs': '0..2', 'histories': '7 classes incl. empty grid, zero outputs, pending refinement, merged refinement + coefficient overwrite, active construction with parked samples, conformal map', 'format': 'binary (ASCII un-counted sanity)'}
+    META['bounds'] = {'dims': '1..3', 'outputs': '0..2', 'histories': '8 classes incl. deepest-first construction (complete-but-blocked tensors), empty grid, zero outputs, pending refinement, merged refinement + coefficient overwrite, active construction with parked samples, conformal map', 'format': 'binary (ASCII un-counted sanity)'}
     return runner.run_property('C06', cs, tier, seed, META)
